@@ -349,19 +349,50 @@ Local Open Scope nat_scope.
 SPEC["C06"] = {
     "header": """C06 — every script the filter factory generates is valid and self-sufficient.
 
-   What is proved here is the part of C06 that no test can settle: caller-supplied values can never
-   change the structure of the script.  Model: factory/Text.v ([fquote] = FiltersSet.__quote,
-   [quote_list] = __quote_list, [quote_if_necessary]) and sieve/Lexer.v (the lexer of the parser that
-   reads the script back).  Proofs: factory/TextFacts.v.  For EVERY byte string v and every text that
-   follows it, the quoted form of v is exactly one string token, and a quoted list is bracket, string
-   tokens separated by commas, bracket; the token's content unescapes to v.
-   The per-kind assembly of __create_filter (which tags, which require) is not modelled: validity,
-   strict validity and require coverage of whole generated scripts are checked on the implementation
-   with the strict validator, and skeleton independence is checked by re-lexing with the model lexer.
-   Values that start with a double or single quote are taken as already quoted by the factory
-   (quote_if_necessary, documented behaviour pinned by the suite) and are outside the claim.""",
-    "imports": TEXT_IMPORTS,
+   Model: factory/Build.v follows FiltersSet.__create_filter, __build_condition, __add_tag, require,
+   check_if_arg_is_extension, __gen_require_command, disablefilter's wrapper and FiltersSet.tosieve statement by
+   statement on top of the models of Command.check_next_arg (sieve/ArgCheck.v) and Command.tosieve
+   (sieve/Printer.v); it is run against factory.py on every check (edit histories with generated definitions and
+   a malformed stream: return values, exception classes, rendered text, requires).
+   Proved (factory/BuildFacts.v, factory/BuildSet.v over sieve/PrintTree.v, CompleteTree.v, RenderFacts.v):
+     (a) values: the quoted form of EVERY byte string is exactly one string token whatever follows, its content
+         unescapes to the value, a quoted list is bracket / string tokens separated by commas / bracket
+         (factory/TextFacts.v) -- a caller-supplied value can never change the token structure;
+     (b) every documented condition form [dcond] (header fallback with :is/:contains/:matches and the :not forms,
+         one name or a list; exists/notexists; size; envelope; address; body :raw/:text; currentdate with match
+         types and with :value + relational operator; true; false) and every documented action form [dact]
+         whose definition has the shape ArgSpec describes (fileinto with :copy/:create/:flags, redirect with
+         :copy, reject, discard, stop, vacation with every subset of its tags): __create_filter does not raise,
+         the command it builds stands for a command of the grammar of CompleteTree (canonical form, with the
+         list separators the factory's trees print with) that is legal wherever the extensions it needs are
+         loaded (C06_condition_built, C06_condition_legal, C06_action_built, C06_action_legal);
+     (c) a whole filter -- any non-empty list of such conditions, any list of such actions, anyof or allof --
+         is `if anyof/allof (...) { ... }` in that sense, and the requirements recorded while it is built name
+         EVERY extension it uses (C06_filter_built, C06_requires_cover);
+     (d) a whole set: for any non-empty list of such filters, some wrapped in `if false { ... }` by disablefilter,
+         with requirements that cover them, the text FiltersSet.tosieve writes -- require line, blank line, the
+         marker comments, the filters -- is ACCEPTED by the parser and parses to the require command followed by
+         the filters in order, each an `if` carrying its marker lines, `if false` exactly for the disabled ones
+         (C06_set_accepted).  Unbounded over values, list lengths, numbers of conditions/actions/filters.
+   Hypotheses on values (each shown necessary by a generated case or a known finding): strings do not start with
+   a quote character (outside the claim), are valid UTF-8, lists are not empty, a header name given as one string
+   is not a condition keyword and does not start with "not" (the factory would take it for a negation -- recorded
+   in DESIGN.md), a string argument of an action does not start with ':'; marker lines contain no line feed.
+   Not proved: keep/setflag/addflag/removeflag (definitions outside wf_def: known findings of C01/C03), tag orders
+   other than the documented one (covered by the differential run and the strict validator).""",
+    "imports": TEXT_IMPORTS + "From SV Require Import Tables ArgCheck ArgSpec Machine Printer CompleteFacts CompleteTree RenderFacts PrintTree GenTables Ops Build BuildFacts BuildSet.\n",
     "theorems": [
+        ("C06_condition_built", "BuildFacts.build_cond", "every documented condition form: the test __create_filter builds stands for [ctest d]; negation flag and requirements as stated"),
+        ("C06_condition_legal", "BuildFacts.cond_wf", "... and that test is legal wherever its extensions are loaded"),
+        ("C06_action_built", "BuildFacts.build_act", "every documented action form: the command built stands for [acmd a]"),
+        ("C06_action_legal", "BuildFacts.act_wf", "... and is legal wherever its extensions are loaded"),
+        ("C06_filter_built", "BuildSet.factory_filter_good", "a whole filter built by __create_filter with the factory's own quoting functions"),
+        ("C06_requires_cover", "BuildSet.freqs_covers", "the requirements recorded name every extension the filter uses"),
+        ("C06_requires_grow", "BuildSet.freqs_grows", "... and nothing recorded earlier is lost"),
+        ("C06_disabled_wrapper", "BuildSet.wrap_good", "disablefilter's `if false { ... }` around a good filter is good"),
+        ("C06_set_accepted", "BuildSet.factory_set_accepted", "the text of a whole set is accepted and parses to the filters in order with their marker lines"),
+        ("C06_example_hypotheses", "BuildSet.ex_ok", "non-vacuity: a definition with ten condition forms and four action forms over hostile values (quotes, backslashes, commas, brackets, script fragments, a line feed, non-ASCII) meets the hypotheses"),
+        ("C06_example_pipeline", "BuildSet.ex_pipeline", "... and, evaluated on the model: added, disabled, rendered, parsed -- require, then the disabled filter with its marker line"),
         ("C06_value_is_one_string_token", "TextFacts.next_token_quote",
          "the quoted form of ANY value lexes as exactly one string token, whatever follows"),
         ("C06_string_rule_length", "TextFacts.scan_string_quote", "the string scanner consumes exactly the quoted form"),
